@@ -104,9 +104,8 @@ theorem varInv_shape {trk : Nat → Bool} {nalt : Nat} {s : St} (h : VarInv trk 
 macro "vf_simp" "[" ts:Lean.Parser.Tactic.simpLemma,* "]" : tactic => `(tactic|
   simp [xstep, St.upd, St.put, St.put2, St.sz, baseOf, tvOf, varEmplace, vDestroy, vConstruct, emplaceAt,
     valueC, copyC, moveC, copyA, moveA, destroyAt, constructAt, assignAt, srcVal, srcMoved, Mem.get, Mem.set,
-    bumpVc, bumpCc, bumpMc, bumpCa, bumpMa, bumpD, varConstructFrom, varAssignFrom, varAssignValue, varSwap, optAssignValue,
-    varUse, useAt, varInv6, vok, $ts,*])
-
+    bumpVc, bumpCc, bumpMc, bumpCa, bumpMa, bumpD, varConstructFrom, varAssignFrom, varAssignBytes, varAssignValue, varSwap, optAssignValue,
+    varUse, useAt, varInv6, vok, Kind.trivCC, Kind.trivMC, Kind.trivCA, Kind.trivMA, Kind.trivD, $ts,*])
 
 theorem x_emplace (k : Kind) (trk : Nat → Bool) (nalt : Nat) (x0 x1 : Slot) (c : Cnt) (a b : Nat) (t : Bool)
     (ha : a < nalt) (hb : b < nalt) (hA : vok trk x0 a) (hB : vok trk x1 b)
@@ -117,7 +116,7 @@ theorem x_emplace (k : Kind) (trk : Nat → Bool) (nalt : Nat) (x0 x1 : Slot) (c
   rcases vok_cases hB with ⟨ht1, v1, rfl⟩ | ⟨ht1, rfl⟩ <;>
   cases htj : trk j <;> cases t <;>
   rcases h with ⟨_ | _⟩ | ⟨_ | _⟩ | _ <;> (try exact absurd rfl (hh _).1) <;> (try exact absurd rfl (hh _).2) <;>
-  cases k <;> simp only [lv_live, lv_dead] at hbal <;> vf_simp [ht0, ht1, htj] <;> omega
+  rcases k with ⟨mem, tr⟩ <;> cases mem <;> simp only [lv_live, lv_dead] at hbal <;> vf_simp [ht0, ht1, htj] <;> omega
 
 /-- converting assignment `v = t` / `v = move(t)` from an object of the caller -/
 theorem x_convAssign (k : Kind) (trk : Nat → Bool) (nalt : Nat) (x0 x1 : Slot) (c : Cnt) (a b : Nat) (t : Bool)
@@ -131,7 +130,7 @@ theorem x_convAssign (k : Kind) (trk : Nat → Bool) (nalt : Nat) (x0 x1 : Slot)
   cases htj : trk j <;> (try rw [haj] at ht0) <;> (try rw [hbj] at ht1) <;> (try exact absurd (ht0.symm.trans ht1) (by decide)) <;>
   (try exact absurd (ht0.symm.trans htj) (by decide)) <;> (try exact absurd (ht1.symm.trans htj) (by decide)) <;> cases t <;>
   cases mv <;>
-  cases k <;> simp only [lv_live, lv_dead] at hbal <;> vf_simp [ht0, ht1, htj, haj, hbj] <;> omega
+  rcases k with ⟨mem, tr⟩ <;> cases mem <;> simp only [lv_live, lv_dead] at hbal <;> vf_simp [ht0, ht1, htj, haj, hbj] <;> omega
 
 /-- converting assignment from the variant's own live alternative, `v = v[index_v<index()>]`: a copy
     self-assignment of the held object; ok, invariant, and nothing changes -/
@@ -145,10 +144,20 @@ theorem x_assignOwn (k : Kind) (trk : Nat → Bool) (nalt : Nat) (x0 x1 : Slot) 
   cases t <;>
   simp only [lv_live, lv_dead] at hbal <;> vf_simp [ht0, ht1] <;> omega
 
-theorem x_optAssign (k : Kind) (trk : Nat → Bool) (nalt : Nat) (x0 x1 : Slot) (c : Cnt) (a b : Nat) (t : Bool)
+/-! The operations whose path depends on the trait bits (`variant = variant` and everything built on it) are proved per
+set of declared members, with the five trait bits universally quantified: `kind_all` reassembles them. -/
+
+theorem kind_all {P : Kind → Prop} (k : Kind)
+    (h : ∀ mem cc mc ca ma dt, P ⟨mem, ⟨cc, mc, ca, ma, dt⟩⟩) : P k := by
+  rcases k with ⟨mem, ⟨cc, mc, ca, ma, dt⟩⟩
+  exact h ..
+
+/-- `optional<T> = t` / `= move(t)`: the converting assignment with alternative 1 selected (assign through when engaged,
+    else emplace); the operand is an object of the caller, so of the trait bits only the declared members matter -/
+theorem x_optAssign (k : Kind) (mv : Bool) (trk : Nat → Bool) (nalt : Nat) (x0 x1 : Slot) (c : Cnt) (a b : Nat) (t : Bool)
     (ha : a < nalt) (hb : b < nalt) (hA : vok trk x0 a) (hB : vok trk x1 b)
     (hbal : c.vc + c.cc + c.mc = c.d + (lv x0 + lv x1))
-    (mv : Bool) (v : Nat) (hj : 1 < nalt) :
+    (v : Nat) (hj : 1 < nalt) :
     ∃ s', St.upd ⟨⟨[x0, x1, .dead, .dead, .dead, .dead], c⟩, a, b⟩ t (optAssignValue k trk ⟨[x0, x1, .dead, .dead, .dead, .dead], c⟩ (baseOf 1 t) (if t then b else a) (tvOf 1)
         (if mv then .move (.ext v) else .copy (.ext v))) = .ok s' ∧ VarInv trk nalt s' := by
   by_cases ha1 : a = 1 <;> by_cases hb1 : b = 1 <;>
@@ -157,7 +166,7 @@ theorem x_optAssign (k : Kind) (trk : Nat → Bool) (nalt : Nat) (x0 x1 : Slot) 
   cases htj : trk 1 <;> (try rw [ha1] at ht0) <;> (try rw [hb1] at ht1) <;> (try exact absurd (ht0.symm.trans ht1) (by decide)) <;>
   (try exact absurd (ht0.symm.trans htj) (by decide)) <;> (try exact absurd (ht1.symm.trans htj) (by decide)) <;> cases t <;>
   cases mv <;>
-  cases k <;> simp only [lv_live, lv_dead] at hbal <;> vf_simp [ht0, ht1, htj, ha1, hb1] <;> omega
+  rcases k with ⟨mem, tr⟩ <;> cases mem <;> simp only [lv_live, lv_dead] at hbal <;> vf_simp [ht0, ht1, htj, ha1, hb1] <;> omega
 
 theorem x_ctor (k : Kind) (trk : Nat → Bool) (nalt : Nat) (x0 x1 : Slot) (c : Cnt) (a b : Nat) (t : Bool)
     (ha : a < nalt) (hb : b < nalt) (hA : vok trk x0 a) (hB : vok trk x1 b)
@@ -166,42 +175,149 @@ theorem x_ctor (k : Kind) (trk : Nat → Bool) (nalt : Nat) (x0 x1 : Slot) (c : 
   rcases vok_cases hA with ⟨ht0, v0, rfl⟩ | ⟨ht0, rfl⟩ <;>
   rcases vok_cases hB with ⟨ht1, v1, rfl⟩ | ⟨ht1, rfl⟩ <;>
   cases t <;> cases mv <;>
-  cases k <;> simp only [lv_live, lv_dead] at hbal <;> vf_simp [ht0, ht1] <;> omega
+  rcases k with ⟨mem, ⟨cc, mc, ca, ma, dt⟩⟩ <;> cases mem <;> cases mc <;> simp only [lv_live, lv_dead] at hbal <;> vf_simp [ht0, ht1] <;> omega
 
-theorem x_assign (k : Kind) (trk : Nat → Bool) (nalt : Nat) (x0 x1 : Slot) (c : Cnt) (a b : Nat) (t : Bool)
-    (ha : a < nalt) (hb : b < nalt) (hA : vok trk x0 a) (hB : vok trk x1 b)
-    (hbal : c.vc + c.cc + c.mc = c.d + (lv x0 + lv x1)) (mv : Bool) :
-    ∃ s', xstep k trk ⟨⟨[x0, x1, .dead, .dead, .dead, .dead], c⟩, a, b⟩ t (if mv then .massign else .cassign) = .ok s' ∧ VarInv trk nalt s' := by
+abbrev XAssignP (mv : Bool) (k : Kind) : Prop :=
+  ∀ (trk : Nat → Bool) (nalt : Nat) (x0 x1 : Slot) (c : Cnt) (a b : Nat) (t : Bool),
+    a < nalt → b < nalt → vok trk x0 a → vok trk x1 b → c.vc + c.cc + c.mc = c.d + (lv x0 + lv x1) →
+    ∃ s', xstep k trk ⟨⟨[x0, x1, .dead, .dead, .dead, .dead], c⟩, a, b⟩ t (if mv then .massign else .cassign) = .ok s' ∧ VarInv trk nalt s'
+
+set_option hygiene false in
+local macro "x_assign_tac" : tactic => `(tactic|
+  (intro cc mc ca ma dt trk nalt x0 x1 c a b t ha hb hA hB hbal
+   have hba : (b = a) = (a = b) := propext eq_comm
+   by_cases hab : a = b <;>
+   rcases vok_cases hA with ⟨ht0, v0, rfl⟩ | ⟨ht0, rfl⟩ <;>
+   rcases vok_cases hB with ⟨ht1, v1, rfl⟩ | ⟨ht1, rfl⟩ <;>
+   (try rw [hab] at ht0) <;> (try exact absurd (ht0.symm.trans ht1) (by decide)) <;>
+   cases t <;>
+   cases mc <;> cases ma <;> cases dt <;>
+   simp only [lv_live, lv_dead] at hbal <;> vf_simp [ht0, ht1, hba, hab] <;> omega))
+
+set_option hygiene false in
+local macro "x_assign_tac_co" : tactic => `(tactic|
+  (intro cc mc ca ma dt trk nalt x0 x1 c a b t ha hb hA hB hbal
+   have hba : (b = a) = (a = b) := propext eq_comm
+   by_cases hab : a = b <;>
+   rcases vok_cases hA with ⟨ht0, v0, rfl⟩ | ⟨ht0, rfl⟩ <;>
+   rcases vok_cases hB with ⟨ht1, v1, rfl⟩ | ⟨ht1, rfl⟩ <;>
+   (try rw [hab] at ht0) <;> (try exact absurd (ht0.symm.trans ht1) (by decide)) <;>
+   cases t <;>
+   cases cc <;> cases ca <;> cases dt <;>
+   simp only [lv_live, lv_dead] at hbal <;> vf_simp [ht0, ht1, hba, hab] <;> omega))
+
+/-- copy assignment: the declared members do not matter, the path depends on `cc`, `ca`, `dt` -/
+theorem x_assign_c : ∀ mem cc mc ca ma dt, XAssignP false ⟨mem, ⟨cc, mc, ca, ma, dt⟩⟩ := by
+  intro mem cc mc ca ma dt trk nalt x0 x1 c a b t ha hb hA hB hbal
   have hba : (b = a) = (a = b) := propext eq_comm
   by_cases hab : a = b <;>
   rcases vok_cases hA with ⟨ht0, v0, rfl⟩ | ⟨ht0, rfl⟩ <;>
   rcases vok_cases hB with ⟨ht1, v1, rfl⟩ | ⟨ht1, rfl⟩ <;>
   (try rw [hab] at ht0) <;> (try exact absurd (ht0.symm.trans ht1) (by decide)) <;>
-  cases t <;> cases mv <;>
-  cases k <;> simp only [lv_live, lv_dead] at hbal <;> vf_simp [ht0, ht1, hba, hab] <;> omega
+  cases t <;> cases cc <;> cases ca <;> cases dt <;>
+  simp only [lv_live, lv_dead] at hbal <;> vf_simp [ht0, ht1, hba, hab] <;> omega
 
-theorem x_swap (k : Kind) (trk : Nat → Bool) (nalt : Nat) (x0 x1 : Slot) (c : Cnt) (a b : Nat) (t : Bool)
-    (ha : a < nalt) (hb : b < nalt) (hA : vok trk x0 a) (hB : vok trk x1 b)
-    (hbal : c.vc + c.cc + c.mc = c.d + (lv x0 + lv x1)) :
-    ∃ s', xstep k trk ⟨⟨[x0, x1, .dead, .dead, .dead, .dead], c⟩, a, b⟩ t .swap = .ok s' ∧ VarInv trk nalt s' := by
-  have hba : (b = a) = (a = b) := propext eq_comm
-  by_cases hab : a = b <;>
-  rcases vok_cases hA with ⟨ht0, v0, rfl⟩ | ⟨ht0, rfl⟩ <;>
-  rcases vok_cases hB with ⟨ht1, v1, rfl⟩ | ⟨ht1, rfl⟩ <;>
-  (try rw [hab] at ht0) <;> (try exact absurd (ht0.symm.trans ht1) (by decide)) <;>
-  cases t <;>
-  cases k <;> simp only [lv_live, lv_dead] at hbal <;> vf_simp [ht0, ht1, hba, hab] <;> omega
+theorem x_assign_cm_m : ∀ cc mc ca ma dt, XAssignP true ⟨.cm, ⟨cc, mc, ca, ma, dt⟩⟩ := by x_assign_tac
+theorem x_assign_mo_m : ∀ cc mc ca ma dt, XAssignP true ⟨.mo, ⟨cc, mc, ca, ma, dt⟩⟩ := by x_assign_tac
+theorem x_assign_co_m : ∀ cc mc ca ma dt, XAssignP true ⟨.co, ⟨cc, mc, ca, ma, dt⟩⟩ := by x_assign_tac_co
 
-/-- self-swap and copy-self-assignment: ok, invariant, and nothing changes -/
-theorem x_self (k : Kind) (trk : Nat → Bool) (nalt : Nat) (x0 x1 : Slot) (c : Cnt) (a b : Nat) (t : Bool)
-    (ha : a < nalt) (hb : b < nalt) (hA : vok trk x0 a) (hB : vok trk x1 b)
-    (hbal : c.vc + c.cc + c.mc = c.d + (lv x0 + lv x1)) (sw : Bool) :
+theorem x_assign (k : Kind) (mv : Bool) : XAssignP mv k :=
+  kind_all (P := XAssignP mv) k fun mem => by
+    cases mv
+    · exact x_assign_c mem
+    · cases mem
+      · exact x_assign_cm_m
+      · exact x_assign_mo_m
+      · exact x_assign_co_m
+
+abbrev XSwapP (t : Bool) (k : Kind) : Prop :=
+  ∀ (trk : Nat → Bool) (nalt : Nat) (x0 x1 : Slot) (c : Cnt) (a b : Nat),
+    a < nalt → b < nalt → vok trk x0 a → vok trk x1 b → c.vc + c.cc + c.mc = c.d + (lv x0 + lv x1) →
+    ∃ s', xstep k trk ⟨⟨[x0, x1, .dead, .dead, .dead, .dead], c⟩, a, b⟩ t .swap = .ok s' ∧ VarInv trk nalt s'
+
+set_option hygiene false in
+local macro "x_swap_tac" : tactic => `(tactic|
+  (intro cc mc ca ma dt trk nalt x0 x1 c a b ha hb hA hB hbal
+   have hba : (b = a) = (a = b) := propext eq_comm
+   by_cases hab : a = b <;>
+   rcases vok_cases hA with ⟨ht0, v0, rfl⟩ | ⟨ht0, rfl⟩ <;>
+   rcases vok_cases hB with ⟨ht1, v1, rfl⟩ | ⟨ht1, rfl⟩ <;>
+   (try rw [hab] at ht0) <;> (try exact absurd (ht0.symm.trans ht1) (by decide)) <;>
+   cases mc <;> cases ma <;> cases dt <;>
+   simp only [lv_live, lv_dead] at hbal <;> vf_simp [ht0, ht1, hba, hab] <;> omega))
+
+set_option hygiene false in
+local macro "x_swap_tac_co" : tactic => `(tactic|
+  (intro cc mc ca ma dt trk nalt x0 x1 c a b ha hb hA hB hbal
+   have hba : (b = a) = (a = b) := propext eq_comm
+   by_cases hab : a = b <;>
+   rcases vok_cases hA with ⟨ht0, v0, rfl⟩ | ⟨ht0, rfl⟩ <;>
+   rcases vok_cases hB with ⟨ht1, v1, rfl⟩ | ⟨ht1, rfl⟩ <;>
+   (try rw [hab] at ht0) <;> (try exact absurd (ht0.symm.trans ht1) (by decide)) <;>
+   cases cc <;> cases ca <;> cases dt <;>
+   simp only [lv_live, lv_dead] at hbal <;> vf_simp [ht0, ht1, hba, hab] <;> omega))
+
+theorem x_swap_cm_a : ∀ cc mc ca ma dt, XSwapP false ⟨.cm, ⟨cc, mc, ca, ma, dt⟩⟩ := by x_swap_tac
+theorem x_swap_cm_b : ∀ cc mc ca ma dt, XSwapP true ⟨.cm, ⟨cc, mc, ca, ma, dt⟩⟩ := by x_swap_tac
+theorem x_swap_mo_a : ∀ cc mc ca ma dt, XSwapP false ⟨.mo, ⟨cc, mc, ca, ma, dt⟩⟩ := by x_swap_tac
+theorem x_swap_mo_b : ∀ cc mc ca ma dt, XSwapP true ⟨.mo, ⟨cc, mc, ca, ma, dt⟩⟩ := by x_swap_tac
+theorem x_swap_co_a : ∀ cc mc ca ma dt, XSwapP false ⟨.co, ⟨cc, mc, ca, ma, dt⟩⟩ := by x_swap_tac_co
+theorem x_swap_co_b : ∀ cc mc ca ma dt, XSwapP true ⟨.co, ⟨cc, mc, ca, ma, dt⟩⟩ := by x_swap_tac_co
+
+theorem x_swap (k : Kind) (t : Bool) : XSwapP t k :=
+  kind_all (P := XSwapP t) k fun mem => by
+    cases mem <;> cases t
+    · exact x_swap_cm_a
+    · exact x_swap_cm_b
+    · exact x_swap_mo_a
+    · exact x_swap_mo_b
+    · exact x_swap_co_a
+    · exact x_swap_co_b
+
+/-- self-swap and copy-self-assignment: ok, invariant, and nothing changes (self-swap inside `xvalid`) -/
+abbrev XSelfP (sw : Bool) (k : Kind) : Prop :=
+  ∀ (trk : Nat → Bool) (nalt : Nat) (x0 x1 : Slot) (c : Cnt) (a b : Nat) (t : Bool),
+    a < nalt → b < nalt → vok trk x0 a → vok trk x1 b → c.vc + c.cc + c.mc = c.d + (lv x0 + lv x1) →
+    (sw = true → (k.mem == .co || k.tr.mc || !k.tr.ma) = true) →
     ∃ s', xstep k trk ⟨⟨[x0, x1, .dead, .dead, .dead, .dead], c⟩, a, b⟩ t (if sw then .swapSelf else .cassignSelf) = .ok s' ∧ VarInv trk nalt s' ∧
-      s'.mem.slots = [x0, x1, .dead, .dead, .dead, .dead] ∧ s'.a = a ∧ s'.b = b := by
-  rcases vok_cases hA with ⟨ht0, v0, rfl⟩ | ⟨ht0, rfl⟩ <;>
-  rcases vok_cases hB with ⟨ht1, v1, rfl⟩ | ⟨ht1, rfl⟩ <;>
-  cases t <;> cases sw <;> (try cases v0) <;> (try cases v1) <;>
-  cases k <;> simp only [lv_live, lv_dead] at hbal <;> vf_simp [ht0, ht1] <;> omega
+      s'.mem.slots = [x0, x1, .dead, .dead, .dead, .dead] ∧ s'.a = a ∧ s'.b = b
+
+set_option hygiene false in
+local macro "x_self_tac" : tactic => `(tactic|
+  (intro cc mc ca ma dt trk nalt x0 x1 c a b t ha hb hA hB hbal hv
+   rcases vok_cases hA with ⟨ht0, v0, rfl⟩ | ⟨ht0, rfl⟩ <;>
+   rcases vok_cases hB with ⟨ht1, v1, rfl⟩ | ⟨ht1, rfl⟩ <;>
+   cases t <;> (try cases v0) <;> (try cases v1) <;>
+   cases mc <;> cases ma <;> cases dt <;>
+   (try (have hx := hv rfl; simp at hx; done)) <;>
+   simp only [lv_live, lv_dead] at hbal <;> vf_simp [ht0, ht1] <;> omega))
+
+set_option hygiene false in
+local macro "x_self_tac_co" : tactic => `(tactic|
+  (intro cc mc ca ma dt trk nalt x0 x1 c a b t ha hb hA hB hbal hv
+   rcases vok_cases hA with ⟨ht0, v0, rfl⟩ | ⟨ht0, rfl⟩ <;>
+   rcases vok_cases hB with ⟨ht1, v1, rfl⟩ | ⟨ht1, rfl⟩ <;>
+   cases t <;> (try cases v0) <;> (try cases v1) <;>
+   cases cc <;> cases ca <;> cases dt <;>
+   (try (have hx := hv rfl; simp at hx; done)) <;>
+   simp only [lv_live, lv_dead] at hbal <;> vf_simp [ht0, ht1] <;> omega))
+
+/-- copy self-assignment: the declared members do not matter, the path depends on `cc`, `ca`, `dt` -/
+theorem x_self_a : ∀ mem cc mc ca ma dt, XSelfP false ⟨mem, ⟨cc, mc, ca, ma, dt⟩⟩ := by
+  intro mem
+  x_self_tac_co
+theorem x_self_cm_s : ∀ cc mc ca ma dt, XSelfP true ⟨.cm, ⟨cc, mc, ca, ma, dt⟩⟩ := by x_self_tac
+theorem x_self_mo_s : ∀ cc mc ca ma dt, XSelfP true ⟨.mo, ⟨cc, mc, ca, ma, dt⟩⟩ := by x_self_tac
+theorem x_self_co_s : ∀ cc mc ca ma dt, XSelfP true ⟨.co, ⟨cc, mc, ca, ma, dt⟩⟩ := by x_self_tac_co
+
+theorem x_self (k : Kind) (sw : Bool) : XSelfP sw k :=
+  kind_all (P := XSelfP sw) k fun mem => by
+    cases sw
+    · exact x_self_a mem
+    · cases mem
+      · exact x_self_cm_s
+      · exact x_self_mo_s
+      · exact x_self_co_s
 
 theorem x_use (k : Kind) (trk : Nat → Bool) (nalt : Nat) (x0 x1 : Slot) (c : Cnt) (a b : Nat) (t : Bool)
     (ha : a < nalt) (hb : b < nalt) (hA : vok trk x0 a) (hB : vok trk x1 b)
@@ -277,7 +393,7 @@ theorem f_callable (k : Kind) (x0 x1 : Slot) (c : Cnt) (a b : Nat) (t : Bool)
   rcases fok_cases hA with ⟨rfl, rfl⟩ | ⟨a, v0, rfl, rfl⟩ <;>
   rcases fok_cases hB with ⟨rfl, rfl⟩ | ⟨b, v1, rfl, rfl⟩ <;>
   cases t <;> cases asg <;> cases mv <;>
-  cases k <;> simp only [lv_live, lv_dead] at hbal <;> vf_fsimp [] <;> omega
+  rcases k with ⟨mem, ⟨cc, mc, ca, ma, dt⟩⟩ <;> cases mem <;> cases mc <;> simp only [lv_live, lv_dead] at hbal <;> vf_fsimp [] <;> omega
 
 /-- construction / assignment from a local function object of another capacity -/
 theorem f_conv (k : Kind) (x0 x1 : Slot) (c : Cnt) (a b : Nat) (t : Bool)
@@ -287,7 +403,7 @@ theorem f_conv (k : Kind) (x0 x1 : Slot) (c : Cnt) (a b : Nat) (t : Bool)
   rcases fok_cases hA with ⟨rfl, rfl⟩ | ⟨a, v0, rfl, rfl⟩ <;>
   rcases fok_cases hB with ⟨rfl, rfl⟩ | ⟨b, v1, rfl, rfl⟩ <;>
   cases t <;> cases asg <;> cases mv <;>
-  cases k <;> simp only [lv_live, lv_dead] at hbal <;> vf_fsimp [] <;> omega
+  rcases k with ⟨mem, ⟨cc, mc, ca, ma, dt⟩⟩ <;> cases mem <;> cases mc <;> simp only [lv_live, lv_dead] at hbal <;> vf_fsimp [] <;> omega
 
 theorem f_reset (k : Kind) (x0 x1 : Slot) (c : Cnt) (a b : Nat) (t : Bool)
     (hA : fok x0 a) (hB : fok x1 b)
@@ -296,7 +412,7 @@ theorem f_reset (k : Kind) (x0 x1 : Slot) (c : Cnt) (a b : Nat) (t : Bool)
   rcases fok_cases hA with ⟨rfl, rfl⟩ | ⟨a, v0, rfl, rfl⟩ <;>
   rcases fok_cases hB with ⟨rfl, rfl⟩ | ⟨b, v1, rfl, rfl⟩ <;>
   cases t <;>
-  cases k <;> simp only [lv_live, lv_dead] at hbal <;> vf_fsimp [] <;> omega
+  rcases k with ⟨mem, ⟨cc, mc, ca, ma, dt⟩⟩ <;> cases mem <;> cases mc <;> simp only [lv_live, lv_dead] at hbal <;> vf_fsimp [] <;> omega
 
 theorem f_ctor (k : Kind) (x0 x1 : Slot) (c : Cnt) (a b : Nat) (t : Bool)
     (hA : fok x0 a) (hB : fok x1 b)
@@ -305,7 +421,7 @@ theorem f_ctor (k : Kind) (x0 x1 : Slot) (c : Cnt) (a b : Nat) (t : Bool)
   rcases fok_cases hA with ⟨rfl, rfl⟩ | ⟨a, v0, rfl, rfl⟩ <;>
   rcases fok_cases hB with ⟨rfl, rfl⟩ | ⟨b, v1, rfl, rfl⟩ <;>
   cases t <;> cases mv <;>
-  cases k <;> simp only [lv_live, lv_dead] at hbal <;> vf_fsimp [] <;> omega
+  rcases k with ⟨mem, ⟨cc, mc, ca, ma, dt⟩⟩ <;> cases mem <;> cases mc <;> simp only [lv_live, lv_dead] at hbal <;> vf_fsimp [] <;> omega
 
 theorem f_assign (k : Kind) (x0 x1 : Slot) (c : Cnt) (a b : Nat) (t : Bool)
     (hA : fok x0 a) (hB : fok x1 b)
@@ -314,7 +430,7 @@ theorem f_assign (k : Kind) (x0 x1 : Slot) (c : Cnt) (a b : Nat) (t : Bool)
   rcases fok_cases hA with ⟨rfl, rfl⟩ | ⟨a, v0, rfl, rfl⟩ <;>
   rcases fok_cases hB with ⟨rfl, rfl⟩ | ⟨b, v1, rfl, rfl⟩ <;>
   cases t <;> cases mv <;>
-  cases k <;> simp only [lv_live, lv_dead] at hbal <;> vf_fsimp [] <;> omega
+  rcases k with ⟨mem, ⟨cc, mc, ca, ma, dt⟩⟩ <;> cases mem <;> cases mc <;> simp only [lv_live, lv_dead] at hbal <;> vf_fsimp [] <;> omega
 
 theorem f_assignSelf (k : Kind) (x0 x1 : Slot) (c : Cnt) (a b : Nat) (t : Bool)
     (hA : fok x0 a) (hB : fok x1 b)
@@ -324,7 +440,7 @@ theorem f_assignSelf (k : Kind) (x0 x1 : Slot) (c : Cnt) (a b : Nat) (t : Bool)
   rcases fok_cases hA with ⟨rfl, rfl⟩ | ⟨a, v0, rfl, rfl⟩ <;>
   rcases fok_cases hB with ⟨rfl, rfl⟩ | ⟨b, v1, rfl, rfl⟩ <;>
   cases t <;> cases mv <;>
-  cases k <;> simp only [lv_live, lv_dead] at hbal <;> vf_fsimp [] <;> omega
+  rcases k with ⟨mem, ⟨cc, mc, ca, ma, dt⟩⟩ <;> cases mem <;> cases mc <;> simp only [lv_live, lv_dead] at hbal <;> vf_fsimp [] <;> omega
 
 theorem f_swap (k : Kind) (x0 x1 : Slot) (c : Cnt) (a b : Nat) (t : Bool)
     (hA : fok x0 a) (hB : fok x1 b)
@@ -333,7 +449,7 @@ theorem f_swap (k : Kind) (x0 x1 : Slot) (c : Cnt) (a b : Nat) (t : Bool)
   rcases fok_cases hA with ⟨rfl, rfl⟩ | ⟨a, v0, rfl, rfl⟩ <;>
   rcases fok_cases hB with ⟨rfl, rfl⟩ | ⟨b, v1, rfl, rfl⟩ <;>
   cases t <;>
-  cases k <;> simp only [lv_live, lv_dead] at hbal <;> vf_fsimp [] <;> omega
+  rcases k with ⟨mem, ⟨cc, mc, ca, ma, dt⟩⟩ <;> cases mem <;> cases mc <;> simp only [lv_live, lv_dead] at hbal <;> vf_fsimp [] <;> omega
 
 theorem f_invoke (k : Kind) (x0 x1 : Slot) (c : Cnt) (a b : Nat) (t : Bool)
     (hA : fok x0 a) (hB : fok x1 b)
@@ -358,7 +474,7 @@ theorem xinit_inv (trk : Nat → Bool) (nalt : Nat) (hn : 0 < nalt) : VarInv trk
     simp [St.init, fresh6, Mem.set, bumpVc, varInv6, vok, h0, hn]
 
 theorem xstep_inv (k : Kind) (trk : Nat → Bool) (nalt : Nat) (s : St) (t : Bool) (op : XOp)
-    (hi : VarInv trk nalt s) (hv : xvalid trk nalt s t op = true) :
+    (hi : VarInv trk nalt s) (hv : xvalid k trk nalt s t op = true) :
     ∃ s', xstep k trk s t op = .ok s' ∧ VarInv trk nalt s' := by
   obtain ⟨x0, x1, c, hs, ha, hb, hA, hB, hbal⟩ := varInv_shape hi
   obtain ⟨m, a, b⟩ := s
@@ -371,19 +487,19 @@ theorem xstep_inv (k : Kind) (trk : Nat → Bool) (nalt : Nat) (s : St) (t : Boo
   | emplaceMove j v => exact x_emplace k trk nalt x0 x1 c a b t ha hb hA hB hbal j (.move (.ext v)) (by simp) (by simpa [xvalid] using hv)
   | assignCopy j v => exact x_convAssign k trk nalt x0 x1 c a b t ha hb hA hB hbal false j v (by simpa [xvalid] using hv)
   | assignMove j v => exact x_convAssign k trk nalt x0 x1 c a b t ha hb hA hB hbal true j v (by simpa [xvalid] using hv)
-  | optAssignCopy v => exact x_optAssign k trk nalt x0 x1 c a b t ha hb hA hB hbal false v (by simpa [xvalid] using hv)
-  | optAssignMove v => exact x_optAssign k trk nalt x0 x1 c a b t ha hb hA hB hbal true v (by simpa [xvalid] using hv)
+  | optAssignCopy v => exact x_optAssign k false trk nalt x0 x1 c a b t ha hb hA hB hbal v (by simpa [xvalid] using hv)
+  | optAssignMove v => exact x_optAssign k true trk nalt x0 x1 c a b t ha hb hA hB hbal v (by simpa [xvalid] using hv)
   | reset => exact x_emplace k trk nalt x0 x1 c a b t ha hb hA hB hbal 0 (.value 0) (by simp) (by simpa [xvalid] using hv)
   | cctor => exact x_ctor k trk nalt x0 x1 c a b t ha hb hA hB hbal false
   | mctor => exact x_ctor k trk nalt x0 x1 c a b t ha hb hA hB hbal true
-  | cassign => exact x_assign k trk nalt x0 x1 c a b t ha hb hA hB hbal false
-  | massign => exact x_assign k trk nalt x0 x1 c a b t ha hb hA hB hbal true
+  | cassign => exact x_assign k false trk nalt x0 x1 c a b t ha hb hA hB hbal
+  | massign => exact x_assign k true trk nalt x0 x1 c a b t ha hb hA hB hbal
   | cassignSelf =>
-    obtain ⟨s', h1, h2, -⟩ := x_self k trk nalt x0 x1 c a b t ha hb hA hB hbal false
+    obtain ⟨s', h1, h2, -⟩ := x_self k false trk nalt x0 x1 c a b t ha hb hA hB hbal (fun h => by cases h)
     exact ⟨s', h1, h2⟩
-  | swap => exact x_swap k trk nalt x0 x1 c a b t ha hb hA hB hbal
+  | swap => exact x_swap k t trk nalt x0 x1 c a b ha hb hA hB hbal
   | swapSelf =>
-    obtain ⟨s', h1, h2, -⟩ := x_self k trk nalt x0 x1 c a b t ha hb hA hB hbal true
+    obtain ⟨s', h1, h2, -⟩ := x_self k true trk nalt x0 x1 c a b t ha hb hA hB hbal (fun _ => by simpa [xvalid] using hv)
     exact ⟨s', h1, h2⟩
   | use => exact x_use k trk nalt x0 x1 c a b t ha hb hA hB hbal hv
   | assignOwn =>
@@ -419,7 +535,7 @@ theorem xcassignSelf_id (k : Kind) (trk : Nat → Bool) (nalt : Nat) (s : St) (t
   obtain ⟨m, a, b⟩ := s
   simp only [St.mk.injEq] at hs
   obtain ⟨rfl, -, -⟩ := hs
-  obtain ⟨s', h1, -, h2⟩ := x_self k trk nalt x0 x1 c a b t ha hb hA hB hbal false
+  obtain ⟨s', h1, -, h2⟩ := x_self k false trk nalt x0 x1 c a b t ha hb hA hB hbal (fun h => by cases h)
   exact ⟨s', h1, h2⟩
 
 theorem xassignOwn_id (k : Kind) (trk : Nat → Bool) (nalt : Nat) (s : St) (t : Bool) (hi : VarInv trk nalt s) :
@@ -431,13 +547,14 @@ theorem xassignOwn_id (k : Kind) (trk : Nat → Bool) (nalt : Nat) (s : St) (t :
   obtain ⟨s', h1, -, h2⟩ := x_assignOwn k trk nalt x0 x1 c a b t ha hb hA hB hbal
   exact ⟨s', h1, h2⟩
 
-theorem xswapSelf_id (k : Kind) (trk : Nat → Bool) (nalt : Nat) (s : St) (t : Bool) (hi : VarInv trk nalt s) :
+theorem xswapSelf_id (k : Kind) (trk : Nat → Bool) (nalt : Nat) (s : St) (t : Bool) (hi : VarInv trk nalt s)
+    (hv : xvalid k trk nalt s t .swapSelf = true) :
     ∃ s', xstep k trk s t .swapSelf = .ok s' ∧ s'.mem.slots = s.mem.slots ∧ s'.a = s.a ∧ s'.b = s.b := by
   obtain ⟨x0, x1, c, hs, ha, hb, hA, hB, hbal⟩ := varInv_shape hi
   obtain ⟨m, a, b⟩ := s
   simp only [St.mk.injEq] at hs
   obtain ⟨rfl, -, -⟩ := hs
-  obtain ⟨s', h1, -, h2⟩ := x_self k trk nalt x0 x1 c a b t ha hb hA hB hbal true
+  obtain ⟨s', h1, -, h2⟩ := x_self k true trk nalt x0 x1 c a b t ha hb hA hB hbal (fun _ => by simpa [xvalid] using hv)
   exact ⟨s', h1, h2⟩
 
 theorem finit_inv : FnInv (St.init 1 0 0) := by
@@ -507,8 +624,8 @@ theorem fswapSelf_id (k : Kind) (s : St) (t : Bool) :
     fstep k s t .swapSelf = .ok s := by
   cases t <;> simp [fstep, fnSwap, St.put, St.sz]
 
-theorem moveA_self_value_error (k : Kind) (hk : k ≠ .co) (m : Mem) (i ty v : Nat)
+theorem moveA_self_value_error (k : Kind) (hk : k.mem ≠ .co) (hma : k.tr.ma = true) (m : Mem) (i ty v : Nat)
     (h : m.slots[i]? = some (.live ty (some v))) : moveA k m i ty (.slot i) = .error (.selfMove i) := by
-  cases k <;> simp [moveA, srcVal, Mem.get, h] at hk ⊢
+  simp [moveA, srcVal, Mem.get, h, hk, hma]
 
 end Tetl.C03
